@@ -91,7 +91,7 @@ def job(args):
         if sname not in st:
             continue
         start = st[sname]
-        case = {"model": name, "loss": kind, "state_name": cols, "generating_theta": theta_gen, "x0": x0, "target_param": tp, "box": boxkind,
+        case = {"cfg": list(cfg), "model": name, "loss": kind, "state_name": cols, "generating_theta": theta_gen, "x0": x0, "target_param": tp, "box": boxkind,
                 "lb": None if lb is None else list(lb), "ub": None if ub is None else list(ub), "start": list(start), "start_kind": sname,
                 "container": container, "weights": wkind, "spread": skind, "refits": refits}
         spread = {"default": None, "small": 0.1 if kind == "Normal" else 0.7}[skind] if kind in lossref.SPREAD_KW else None
